@@ -231,6 +231,7 @@ class Rig:
         await wf.save(self.context.database)
         task = asyncio.create_task(step.run())
         raised = False
+        fed: dict = {}
         try:
             await sd.settle(step, task, ["x"])
             for e in events:
@@ -242,6 +243,7 @@ class Rig:
                 tok = (ListToken(tag=e[1], value=[Token(value=i, tag=e[1]) for i in range(e[2])]) if e[0] == "l"
                        else Token(value="plain", tag=e[1]) if e[0] == "o" else TerminationToken(Status[e[1]]))
                 await sd.save_tokens(self.context, p_in, [tok])
+                fed[tok.persistent_id] = events.index(e) if events.count(e) == 1 else [i for i, x in enumerate(events) if x is e][0]
                 p_in.put(tok)
                 for _ in range(sd.TERM_SPINS):
                     await asyncio.sleep(0)
@@ -257,6 +259,7 @@ class Rig:
         finally:
             if not task.done():
                 task.cancel()
+        self.last_scatter_inputs = fed
         return list(wf.ports[p_out.name].token_list), list(step.get_size_port().token_list), raised
 
     async def gather(self, depth: int, events: list, imposed: bool) -> tuple[list[Token], GatherStep]:
@@ -382,6 +385,10 @@ class C01(Property):
         for g, (real, how, case) in zip(got, self._expect):
             if how == "exact":
                 same = g == real
+            elif how == "scatterprov":   # tokens dropped by the FilterTokenPort are persisted but not on the port: compare what is on the ports
+                mine = set(real.split(",")) if real != "-" else set()
+                tags = {x.split("<-")[0] for x in mine}
+                same = {x for x in (g.split(",") if g != "-" else []) if x.split("<-")[0] in tags} == mine
             elif how in ("prov", "provset"):   # element order inside a provenance set is not observable in the database
                 cg, cr = canon_prov(g), canon_prov(real)
                 same = cg == cr if how == "prov" else sorted(cg) == sorted(cr)
@@ -570,8 +577,20 @@ class C01(Property):
                     (",".join(f"{t.tag}:{t.value}" for t in sizes if not isinstance(t, TerminationToken)) or "-") + "|term=" +
                     ((terms[0].value.name if terms else "-") if ok_term else "INCONSISTENT") + ("|raised" if raised else ""))
             exp = (real, "exact", dict(case, stage="scatterrun"))
+            # provenance in the database of every token on the two ports at the end: the list token it was scattered from
+            fed = rig.last_scatter_inputs
+            provs = []
+            for log, pre in ((elems, ""), (sizes, "size:")):
+                for t in log:
+                    if isinstance(t, TerminationToken):
+                        continue
+                    deps = [r["dependee"] for r in await rig.context.database.get_dependees(t.persistent_id)]
+                    provs.append(f"{pre}{t.tag}<-" + ("+".join(str(fed.get(d, "?")) for d in deps) or "none"))
+            pexp = (",".join(sorted(provs)) or "-", "scatterprov", dict(case, stage="scatterrun:provenance"))
             self._lines.append("scatterrun " + " ".join(words))
             self._expect.append(exp)
+            self._lines.append("scatterprov " + " ".join(words))
+            self._expect.append(pexp)
             if all(e[0] in ("l", "t") for e in evs) and evs and evs[-1][0] == "t":
                 # the property's part: element i of every list retagged tag.i in order, one size token per list, both ports terminated
                 exp_e = [f"{e[1]}.{k}" for e in evs if e[0] == "l" for k in range(e[2])]
@@ -811,6 +830,8 @@ class C01(Property):
         got = ctx.lean("Drivers/C01.lean", self._lines)
         for ln, g, (real, how, c) in zip(self._lines, got, self._expect):
             print(f"{c.get('stage')}: {ln[:400]}\n   real : {real[:600]}\n   model: {g[:600]}")
+            if how == "scatterprov":
+                continue
             bad = (g != real) if how == "exact" else (canon_prov(g) != canon_prov(real)) if how == "prov" else \
                 (sorted(canon_prov(g)) != sorted(canon_prov(real))) if how == "provset" else (canon_sets(g) != canon_sets(real))
             if bad:
